@@ -348,7 +348,8 @@ class Judge:
                 self.feat(case, w)
             elif w[0] == "ipush":
                 self.st["pushes"] += 1
-                box.append((w[7 + 1], w[7 + 2], w[7 + 3]))     # res lo hi safe
+                pres = w[w.index("pres") + 1: w.index("pres") + 4] if "pres" in w else None
+                box.append((w[7 + 1], w[7 + 2], w[7 + 3], pres))     # res lo hi safe, plain tree's lo hi safe
             elif w[0] == "ppush":
                 self.st["pushes"] += 1
                 box.append(None)
@@ -376,11 +377,22 @@ class Judge:
                 if math.isinf(re) or math.isnan(re) or math.isnan(rv):
                     continue
                 self.st["pushed_interval_samples"] += 1
+                pres = bx[3]
                 if math.isnan(c):
                     if safe and fin(lo) and fin(hi):
-                        self.bad(case, "pushed-interval-misses-nan", "NaN value inside a box whose interval result was NaN-free: %s" % ln)
+                        if pres is not None and pres[2] == "1" and math.isnan(fl(p)):
+                            self.st["interval_shared_with_plain"] += 1       # the plain tree misses it too: C02's business
+                        else:
+                            # plain tree flags the box, the oracle tree does not: flag lost in TransformedOracle::evalInterval
+                            self.bad(case, "interval-nan", "NaN value inside a pushed box whose oracle-tree interval [%s,%s] was NaN-free "
+                                     "(plain tree on the same box: %s): %s" % (bx[0], bx[1], pres, ln))
                 elif not (lo - K * re <= c <= hi + K * re) and fin(lo) and fin(hi):
-                    self.bad(case, "pushed-interval-unsound", "value %s outside the interval [%s,%s] of the pushed box: %s" % (cur, bx[0], bx[1], ln))
+                    pv = fl(p)
+                    if pres is not None and fin(fl(pres[0])) and fin(fl(pres[1])) and not math.isnan(pv) and \
+                            not (fl(pres[0]) - K * re <= pv <= fl(pres[1]) + K * re):
+                        self.st["interval_shared_with_plain"] += 1
+                    else:
+                        self.bad(case, "pushed-interval-unsound", "value %s outside the interval [%s,%s] of the pushed box: %s" % (cur, bx[0], bx[1], ln))
         # 2. oracle tree vs plain tree
         a = agree(base, p, rv, re)
         if a == "skip":
